@@ -5,8 +5,10 @@ CONSTANT XIds = {1, 2, 3, 4, 5, 6}
 CONSTANT ZIds = {1, 3}
 CONSTANT Lays = {1, 2, 3, 4}
 CONSTANT Mod = 1
+CONSTANT TsMod = 2
 INIT Init
 NEXT Next
+INVARIANT C13_Representable
 INVARIANT C13_ThreeDefinitionsAgree
 INVARIANT C13_EndpointOne
 INVARIANT C13_Parity
@@ -23,6 +25,7 @@ INVARIANT C13_WellPosedIsSolvable
 INVARIANT C13_ZeroWeightNoInfluence
 INVARIANT C13_NoBetterNeighbour
 INVARIANT C13_TsetExact
+INVARIANT C13_TsetWLS
 INVARIANT C13_FitThenEvaluate
 INVARIANT C13_XNormLaws
 INVARIANT C13_GridLaws
